@@ -168,7 +168,7 @@ theorem copyLoop_ok (k : Nat) : ∀ (h : List (GCell β)) (t newId : Nat) (c n :
 the unread bits fit into a cell -/
 theorem step_no_panic {h : List (GCell β)} (hw : WFH h) (t : Nat) (op : CellOp)
     (hbit : ∀ z c, op = .bit z → h[t]? = some c → ∀ p, (I.runOp z c.bits).1 ≠ .panic p)
-    (hlen : ∀ c, h[t]? = some c → I.len (I.remaining c.bits) ≤ cellBits) :
+    (hlen : ∀ c, h[t]? = some c → ∃ b, I.remaining c.bits = .ok b ∧ I.len b ≤ cellBits) :
     (∀ p, (step I h t op).1 ≠ .panic p) ∧ WFH (step I h t op).2 := by
   have onCell_ok : ∀ (f : GCell β → Outcome Out × GCell β),
       (∀ c, h[t]? = some c → (∀ p, (f c).1 ≠ .panic p) ∧ (f c).2.refs = c.refs ∧ (f c).2.refCursor ≤ c.refs.length) →
@@ -264,21 +264,23 @@ theorem step_no_panic {h : List (GCell β)} (hw : WFH h) (t : Nat) (op : CellOp)
     | none => exact ⟨(fun p hp => by cases hp), hw⟩
     | some c =>
       simp only
-      have hl := hlen c hc
-      have hnl : ¬ I.len (I.remaining c.bits) > cellBits := by omega
+      obtain ⟨rb, hrb, hl⟩ := hlen c hc
+      rw [hrb]
+      simp only
+      have hnl : ¬ I.len rb > cellBits := by omega
       rw [if_neg hnl]
       obtain ⟨a, b, e⟩ := hw t c hc
       have htlt : t < h.length := (List.getElem?_eq_some_iff.mp hc).1
-      have hw0 : WFH (h ++ [{ bits := I.remaining c.bits, refs := [], refCursor := 0 }]) := hw.append _ rfl rfl
-      have hc0 : (h ++ [{ bits := I.remaining c.bits, refs := [], refCursor := 0 }])[t]? = some c := by
+      have hw0 : WFH (h ++ [{ bits := rb, refs := [], refCursor := 0 }]) := hw.append _ rfl rfl
+      have hc0 : (h ++ [{ bits := rb, refs := [], refCursor := 0 }])[t]? = some c := by
         rw [List.getElem?_append_left htlt]; exact hc
-      have hn0 : (h ++ [{ bits := I.remaining c.bits, refs := [], refCursor := 0 }])[h.length]?
-          = some { bits := I.remaining c.bits, refs := [], refCursor := 0 } := by
+      have hn0 : (h ++ [{ bits := rb, refs := [], refCursor := 0 }])[h.length]?
+          = some { bits := rb, refs := [], refCursor := 0 } := by
         rw [List.getElem?_append_right (Nat.le_refl _)]; simp
       obtain ⟨r1, r2, r3, c', r4, r5⟩ := copyLoop_ok I (c.refs.length - c.refCursor) _ t h.length c _ hw0 hc0 hn0
         (by omega) (fun hm => by have := e _ hm; omega) (Nat.le_refl _) (by simp only [List.length_nil]; omega)
       obtain ⟨r, h1, hl1⟩ : ∃ r h1, copyLoop I (c.refs.length - c.refCursor)
-        (h ++ [{ bits := I.remaining c.bits, refs := [], refCursor := 0 }]) t h.length = (r, h1) := ⟨_, _, rfl⟩
+        (h ++ [{ bits := rb, refs := [], refCursor := 0 }]) t h.length = (r, h1) := ⟨_, _, rfl⟩
       rw [hl1] at r1 r2 r3 r4
       simp only at r1 r2 r3 r4
       subst r1
